@@ -403,6 +403,25 @@ def run_cell(cell, seed):
                 fails.append({"sub": "mll", "symptom": f"n_total * masked MLL != log N(y_obs; deleted data): err={msg1}", "detail": f"n_total={n_total} n_obs={n_obs} got={float(val):.6f} want={float(want / n_obs):.6f} (per n_total {float(want / n_total):.6f})", "features": f2})
         for f in fails:
             f.setdefault("features", f2)
+    if kind == "sgpr" and cell["ctx"] == "default" and int((~nanmask).sum()) > 0:
+        # the SGPR objective (marginal of the Nystrom model + its added trace term) under 'mask' == the same objective on the deleted data
+        f2 = dict(feats, policy="mask", order="mll")
+        with fails.guard("mll"):
+            obs = ~nanmask
+            vals = []
+            for Xa, ya, pol in ((X, y, "mask"), (X[obs], y0[obs], "ignore")):
+                model = build(kind, seed, Xa, ya)
+                model.train()
+                mll = gpytorch.mlls.ExactMarginalLogLikelihood(model.likelihood, model)
+                with S.observation_nan_policy(pol):
+                    vals.append(mll(model(Xa), ya).detach())
+            ops += 2
+            ok1, msg1 = util.close(vals[0] * y.numel(), vals[1] * int(obs.sum()), 1e-8, 1e-8)
+            if not ok1:
+                fails.append({"sub": "mll", "symptom": f"n_total * masked SGPR objective != n_obs * objective on the deleted data: err={msg1}",
+                              "detail": f"masked={float(vals[0]):.6f} deleted={float(vals[1]):.6f}", "features": f2})
+        for f in fails:
+            f.setdefault("features", f2)
     return {"fails": fails, "sig": ",".join(sorted({f["sub"] for f in fails})) or "ok", "features": feats, "ops": ops,
             "nontrivial": 0 < int(nanmask.sum()) < nanmask.numel()}
 
